@@ -11,6 +11,7 @@ import (
 	"fmt"
 	"go/constant"
 	"go/token"
+	"go/types"
 	"sort"
 	"strings"
 
@@ -153,6 +154,27 @@ func extractTableOpt(fn *ssa.Function, cut bool) (*dtable, error) {
 		}
 		switch x := last.(type) {
 		case *ssa.Return:
+			// a single boolean result computed by a comparison / flag: split into the two outcomes
+			if len(x.Results) == 1 {
+				rv := resolve(x.Results[0])
+				if _, isConst := rv.(*ssa.Const); !isConst {
+					if bt, ok := rv.Type().Underlying().(*types.Basic); ok && bt.Kind() == types.Bool {
+						a, _ := decomposeCond(rv)
+						for _, outcome := range []bool{true, false} {
+							b := a
+							if !outcome {
+								b.neg = !b.neg
+							}
+							if contradicts(f.conds, b) {
+								continue
+							}
+							k := ssa.NewConst(constant.MakeBool(outcome), rv.Type())
+							t.rows = append(t.rows, trow{conds: append(append([]atom{}, f.conds...), b), ret: x, vals: []ssa.Value{k}, results: []string{"const:" + fmt.Sprint(outcome)}})
+						}
+						return nil
+					}
+				}
+			}
 			row := trow{conds: append([]atom{}, f.conds...), ret: x}
 			for _, r := range x.Results {
 				rv := resolve(r)
